@@ -20,12 +20,13 @@ import (
 )
 
 type pkgGen struct {
-	name    string
-	imports []int
-	files   map[string]*strings.Builder
-	nvars   int
-	rank    []int // dependency rank of each var: a var may depend only on vars of higher rank
+	name     string
+	imports  []int
+	files    map[string]*strings.Builder
+	nvars    int
+	rank     []int // dependency rank of each var: a var may depend only on vars of higher rank
 	exported []string
+	bare     bool // no package-level variable here or below: all start-up work is in init functions and blank initialisers
 }
 
 func genModule(t *rapid.T, withStd bool) (files map[string]string, feats map[string]bool) {
@@ -52,6 +53,10 @@ func genModule(t *rapid.T, withStd bool) (files map[string]string, feats map[str
 		}
 		nfiles := rapid.IntRange(1, 3).Draw(t, "nfiles")
 		names := rapid.Permutation(fileNames).Draw(t, "filenames")[:nfiles]
+		if rapid.IntRange(0, 3).Draw(t, "bare") == 0 {
+			genBare(t, p, pkgs, importedBy, names, files, feats)
+			continue
+		}
 		usedImp := map[string]map[int]bool{}
 		for _, fn := range names {
 			p.files[fn] = &strings.Builder{}
@@ -94,7 +99,7 @@ func genModule(t *rapid.T, withStd bool) (files map[string]string, feats map[str
 			if len(p.imports) > 0 && rapid.IntRange(0, 2).Draw(t, "useimp") == 0 {
 				j := p.imports[rapid.IntRange(0, len(p.imports)-1).Draw(t, "impidx")]
 				q := pkgs[j]
-				if rapid.Bool().Draw(t, "impvar") {
+				if q.nvars > 0 && rapid.Bool().Draw(t, "impvar") {
 					expr += fmt.Sprintf(" + p%d.V%d", j, rapid.IntRange(0, q.nvars-1).Draw(t, "impv"))
 				} else {
 					expr += fmt.Sprintf(" + p%d.Get()", j)
@@ -164,6 +169,52 @@ func genModule(t *rapid.T, withStd bool) (files map[string]string, feats map[str
 	mb.WriteString("\tprintln(\"main.main\", s+Z)\n}\n")
 	files["main.go"] = mb.String()
 	return
+}
+
+// genBare emits a package without any package-level variable that imports only packages of the same kind (not even
+// the tracer): everything it does at start-up happens in init functions and blank initialisers, which print directly.
+func genBare(t *rapid.T, p *pkgGen, pkgs []*pkgGen, importedBy []int, names []string, files map[string]string, feats map[string]bool) {
+	p.bare = true
+	var keep []int
+	for _, j := range p.imports {
+		if pkgs[j].bare {
+			keep = append(keep, j)
+		} else {
+			importedBy[j]--
+		}
+	}
+	p.imports = keep
+	feats["init_only_package"] = true
+	if len(keep) > 0 {
+		feats["init_only_package_chain"] = true
+	}
+	for fi, fn := range names {
+		var b strings.Builder
+		fmt.Fprintf(&b, "package %s\n\n", p.name)
+		if len(p.imports) > 0 {
+			b.WriteString("import (\n")
+			for _, j := range p.imports {
+				fmt.Fprintf(&b, "\t_ \"c12mod/p%d\"\n", j)
+			}
+			b.WriteString(")\n\n")
+		}
+		if fi == 0 {
+			fmt.Fprintf(&b, "//go:noinline\nfunc pr(s string) int {\n\tprintln(0, s)\n\treturn len(s)\n}\n\nfunc Get() int { return pr(\"%s.Get\") }\n\n", p.name)
+		}
+		ninit := rapid.IntRange(0, 2).Draw(t, "ninit")
+		if fi == 0 && ninit == 0 {
+			ninit = 1
+		}
+		for k := 0; k < ninit; k++ {
+			if rapid.IntRange(0, 2).Draw(t, "blankinit") == 0 {
+				fmt.Fprintf(&b, "var _ = pr(\"%s.blank %s#%d\")\n\n", p.name, fn, k)
+				feats["blank_initialiser"] = true
+			} else {
+				fmt.Fprintf(&b, "func init() { pr(\"%s.init %s#%d\") }\n\n", p.name, fn, k)
+			}
+		}
+		files[p.name+"/"+fn] = b.String()
+	}
 }
 
 func seq(n int) []int {
